@@ -374,3 +374,20 @@ pub fn run(g: &mut Global) {
     let ml = g.tier.pick(60_000usize, 400_000usize);
     g.random("random", g.tier.pick(480, 4000), &move || strategy(ml), &check);
 }
+
+#[cfg(test)]
+mod tests {
+    use super::near_pow2;
+    #[test]
+    fn dense_sampling_windows_after_powers_of_two() {
+        for k in 8..=24u32 {
+            let p = 1usize << k;
+            for n in [1usize, 5, 14] {
+                assert!(near_pow2(p - 2, n) && near_pow2(p, n) && near_pow2(p + n + 3, n), "k={} n={}", k, n);
+                assert!(!near_pow2(p + n + 4, n) || (p + n + 6 >= 2 * p), "k={} n={}", k, n);
+                assert!(!near_pow2(p - 3, n) || p - 3 <= p / 2 + n + 3);
+            }
+        }
+        assert!(!near_pow2(100, 5));
+    }
+}
